@@ -294,6 +294,9 @@ type c32Case struct {
 	ErrField bool   `json:"err_field,omitempty"`
 	OtherSrc bool   `json:"other_src,omitempty"`
 	Desc     string `json:"desc,omitempty"`
+	// alphabet parameters the indices refer to (needed to replay a case of the other tier)
+	NSecrets int `json:"n_secrets"`
+	Bits     int `json:"bits_per_byte"`
 }
 
 const (
@@ -801,14 +804,14 @@ func TestVerifC32(t *testing.T) {
 			ev.ReplayCase(&c)
 			e.runRelay(r, &c, &a, &b)
 		case "handler":
-			e = c32NewEnv(5, 8)
 			var c c32Case
 			ev.ReplayCase(&c)
+			e = c32NewEnv(c.NSecrets, c.Bits)
 			e.runHandler(r, &c32HCounters{}, &c)
 		default:
-			e = c32NewEnv(5, 8)
 			var c c32Case
 			ev.ReplayCase(&c)
+			e = c32NewEnv(c.NSecrets, c.Bits)
 			e.runVerify(r, &c32Counters{}, &c)
 		}
 		r.Finish(false)
@@ -868,7 +871,7 @@ func TestVerifC32(t *testing.T) {
 			idx[i] = m % dims[i]
 			m /= dims[i]
 		}
-		return &c32Case{Stage: "verify", Claimed: idx[0], KeyForm: idx[1], Signer: idx[2], Signed: idx[3], Presented: idx[4], SigForm: idx[5]}
+		return &c32Case{Stage: "verify", Claimed: idx[0], KeyForm: idx[1], Signer: idx[2], Signed: idx[3], Presented: idx[4], SigForm: idx[5], NSecrets: nSecrets, Bits: bits}
 	}
 	sigLenOK := make([]bool, nF)
 	for i, f := range e.sigForms {
@@ -944,7 +947,7 @@ func TestVerifC32(t *testing.T) {
 						for presented := 0; presented < nS; presented++ {
 							for _, sf := range sigSel {
 								for wait := 0; wait < 2; wait++ {
-									base := c32Case{Stage: "handler", Handler: handler, Claimed: claimed, KeyForm: kf, Signer: signer, Signed: signed, Presented: presented, SigForm: sf, Wait: wait}
+									base := c32Case{Stage: "handler", Handler: handler, Claimed: claimed, KeyForm: kf, Signer: signer, Signed: signed, Presented: presented, SigForm: sf, Wait: wait, NSecrets: nSecrets, Bits: bits}
 									if wait == 1 && (signed != presented || e.sigForms[sf].class != c32SigKeeps) {
 										continue // out-of-sequence delivery is only interesting with otherwise good material
 									}
